@@ -40,6 +40,7 @@ def run(chk: Check) -> None:
     run_follow_imports(chk, ix)
     run_status(chk, ix)
     run_change_detection(chk, ix)
+    run_traverser_children(chk, ix)
 
     r1 = chk.rule("R03.1", "reprocess_nodes performs snapshot < clear < strip < analyse < merge < check < snapshot < compare < update_deps on every normal path, returns the compared triggers, and the propagation loop re-queues error targets and resets protocol caches first", floor=12)
     rp = ix.func("mypy.server.update.reprocess_nodes")
@@ -340,3 +341,55 @@ def run_change_detection(chk: Check, ix) -> None:
             r6.ok("the stored record is refreshed before a modification is reported", fc.loc(a.stmt))
         else:
             r6.violation("the stored record is refreshed before a modification is reported", fc.loc(a.stmt), "the remembered (mtime, size, hash) is not updated: the same change is reported on every later request or a revert goes unnoticed")
+
+
+def run_traverser_children(chk: Check, ix) -> None:
+    """R03.7: the generic traverser (base of the dependency, strip, merge and sub-expression visitors) descends into every child."""
+    import re
+    r7 = chk.rule("R03.7", "TraverserVisitor.visit_X reads (and so descends into) every field of node class X whose declared type is a syntax node, a list of them or a Block; the dependency generator, the strip and merge visitors and the sub-expression finder all inherit this traversal, so a skipped child gets no dependencies and is never re-processed", floor=100)
+    nodeish = re.compile(r"\b(Expression|Statement|Block|Node|Pattern|Lvalue|NameExpr|RefExpr|FuncItem|FuncDef|Decorator|OverloadPart|Argument|StrExpr|TypeParam|MypyFile|ClassDef|CallExpr|TupleExpr|LambdaExpr|Var|WithStmt|IfStmt|GeneratorExpr|DictionaryComprehension)\b")
+    mods = (ix.module("mypy.nodes"), ix.module("mypy.patterns"))
+    trav = ix.cls("mypy.traverser.TraverserVisitor")
+    n_classes = 0
+    for m in mods:
+        for cn, c in sorted(m.classes.items()):
+            a = c.methods.get("accept")
+            if not a:
+                continue
+            vm = None
+            for n in ast.walk(a.node):
+                if isinstance(n, ast.Call) and isinstance(n.func, ast.Attribute) and n.func.attr.startswith("visit_"):
+                    vm = n.func.attr
+            if not vm:
+                continue
+            if vm not in trav.methods:
+                if cn != "PlaceholderNode":
+                    r7.violation(f"TraverserVisitor has a visit method for {cn}", f"{trav.module.relpath}:{trav.node.lineno}", f"{vm} is not defined by TraverserVisitor: visitors built on it never see the children of a {cn}")
+                continue
+            n_classes += 1
+            fields: dict[str, str] = {}
+            for b in c.mro():
+                if b.module not in mods:
+                    continue
+                for n in b.node.body:
+                    if isinstance(n, ast.AnnAssign) and isinstance(n.target, ast.Name):
+                        fields.setdefault(n.target.id, norm(n.annotation))
+                init = b.methods.get("__init__")
+                if init:
+                    ann = {p_.arg: norm(p_.annotation) for p_ in init.node.args.args if p_.annotation}
+                    for n in ast.walk(init.node):
+                        if isinstance(n, ast.AnnAssign) and isinstance(n.target, ast.Attribute) and norm(n.target.value) == "self":
+                            fields.setdefault(n.target.attr, norm(n.annotation))
+                        if isinstance(n, ast.Assign) and isinstance(n.targets[0], ast.Attribute) and norm(n.targets[0].value) == "self" and isinstance(n.value, ast.Name) and n.value.id in ann:
+                            fields.setdefault(n.targets[0].attr, ann[n.value.id])
+            reads = reads_of_param(ix, trav.methods[vm])
+            for fld, t in sorted(fields.items()):
+                if not nodeish.search(t) or "Callable" in t:
+                    continue
+                key = f"TraverserVisitor.{vm} descends into {cn}.{fld}"
+                if fld in reads:
+                    r7.ok(key, trav.methods[vm].loc())
+                else:
+                    r7.violation(key, trav.methods[vm].loc(), f"`{fld}: {t}` is a child of {cn} that the generic traversal never visits: names used inside it get no fine-grained dependencies, are not stripped before re-analysis and are not merged")
+    if n_classes < 70:
+        raise AnalysisError(f"only {n_classes} node classes matched with TraverserVisitor methods")
